@@ -159,6 +159,9 @@ func vHyphenLayout(r *rand.Rand, words []string, allowKF bool) (string, []int, b
 				sb.WriteString(w[:cut] + "-\n" + w[cut:])
 				line++
 				col = 1
+				if r.Intn(3) == 0 {
+					col = width // the second half ends its line
+				}
 			}
 			continue
 		}
